@@ -14,7 +14,7 @@ def one(job):
 
 def main():
     props = [a.upper() for a in sys.argv[1:] if not a.startswith("-")] or [c["property_id"] for c in json.load(open(os.path.join(V, "MANIFEST.json")))["checks"]]
-    patches = sorted(glob.glob("/tmp/benignout/*/patch.diff")) + sorted(glob.glob(os.path.join(V, "mutants", "*", "benign", "*.patch"))) + sorted(glob.glob(os.path.join(V, "benign", "*", "patch.diff")))
+    patches = sorted(glob.glob(os.path.join(V, "mutants", "*", "benign", "*.patch"))) + sorted(glob.glob(os.path.join(V, "benign", "*", "patch.diff")))
     # make sure each tree's facts exist once before fanning out (generation is serialised by a lock anyway)
     jobs = [(p, x) for x in patches for p in props]
     bad = 0
